@@ -456,7 +456,12 @@ def twins(rep: Report, prog: Program) -> None:
             mb = {"__enter__": "__aenter__", "__exit__": "__aexit__"}.get(m, m)
             if m in ("__aenter__", "__aexit__"):
                 continue
-            if ma in ca.methods and mb in cb.methods:
+            if ma in ca.methods and mb in cb.methods and m.startswith("_") and not m.startswith("__") and inline_pred is not None and inline_pred(ca.methods[ma]) and inline_pred(cb.methods[mb]):
+                # a private helper both twins extracted (new to the rules): read through where each twin calls it - the
+                # comparison of the callers covers it, argument by argument
+                rep.instance("R12.1", f"private-helper-of-both-twins|{a}.{m}")
+                rep.ok("R12.1")
+            elif ma in ca.methods and mb in cb.methods:
                 pairs.append((ca.methods[ma].qual, cb.methods[mb].qual))
             elif m.startswith("_") and not m.startswith("__") and (inline_pred is not None and inline_pred((ca.methods.get(ma) or cb.methods.get(mb)))):
                 # a private helper one twin extracted for itself: it has no behaviour of its own - the path engine reads
